@@ -164,7 +164,7 @@ NOT_APPLICABLE = {p: PENDING for p in ['C%02d' % i for i in range(1, 20)]}
 # every run (fail-closed ast translators) and PROVED equal to the hand-written model the property theorems are about
 TIES = {
  'C01': ('translate/pystim2coq.py -> coq/gen/StimIdxGen.v: stim.envelope index arithmetic, GateFactory / EnvelopeFactory / FixedWaveform / '
-         'SquareWaveFactory next() and queries, _sam_envelope; tie theorems Stim/ProofsTie.v (C01_source_*): generated = model for all inputs'),
+         'SquareWaveFactory next() and queries, _sam_envelope, repeat(), RepeatFactory.reset, Transform.next / reset; tie theorems Stim/ProofsTie.v, ProofsTieRep.v (C01_source_*): generated = model for all inputs'),
  'C09': ('translate/pystim2coq.py -> coq/gen/StimIdxGen.v (as C01); C09_source_* restate totals / bookkeeping / shape / rise rejection over the generated definitions'),
  'C05': ('translate/pycapture2coq.py -> coq/gen/CaptureGen.v: the capture_epoch coroutine as a step function and the WHOLE loop body of extract_epochs (removal '
          'drain, intake, replay, delivery, pruning, all-done callback) as a send function; tie theorems Extract/ProofsTie.v, ProofsTieSend.v (C05_source_*), incl. '
@@ -189,7 +189,7 @@ TIES = {
  'C11': ('translate/pypdata2coq.py -> coq/gen/PDataGen.v: normalize_index in full, the annotation fix-up of PipelineData.__getitem__, ensure_dim and concat (annotated pieces); tie theorems '
          'PData/ProofsTie.v, ProofsTieConcat.v (C11_source_*): generated = model for every index value and every array'),
  'C13': ('translate/pyedges2coq.py -> coq/gen/EdgesGen.v (on top of gen/RunsGen.v): the edges coroutine as start / step functions, Events.get_range_samples / '
-         'get_latest_samples; tie theorems Edges/ProofsTie.v (C13_source_*)'),
+         'get_latest_samples, combine_events (translate/pycombine2coq.py -> gen/EdgesCombineGen.v); tie theorems Edges/ProofsTie.v, ProofsTieCombine.v (C13_source_*)'),
  'C17': ('translate/pyreject2coq.py -> coq/gen/RejectGen.v: reject_epochs set-up and loop body over a small NumPy vocabulary (coq/Reject/NumpyPrims.v); tie theorems '
          'Reject/ProofsTie.v (C17_source_*)'),
  'C18': ('translate/pyruns2coq.py -> coq/gen/RunsGen.v: util.ts / edge_rising / edge_falling / epochs (pad = 0) / smooth_epochs / debounce_epochs over '
